@@ -186,6 +186,14 @@ fn read_workload(image: &[u8], streams: &[(String, Vec<u8>)], ctl: Arc<Ctl>, han
         script.push(("read", 700));
         script.push(("seek", 0));
         script.push(("read", 100));
+        // requests at least as large as the stream buffer's maximum (1024 here), from a position where the
+        // window is exhausted or was dropped: a reader that bypasses its buffer for large requests takes
+        // this path
+        script.push(("seek", (content.len() / 3) as i64));
+        script.push(("read", 3000));
+        script.push(("read", 1024));
+        script.push(("seek", 0));
+        script.push(("read", 5000));
         for (op, arg) in script {
             let mut tries = 0;
             // a `read` step collects `arg` bytes (or up to the end) over as many calls as it takes,
